@@ -413,6 +413,8 @@ def load_known():
 # the check object
 
 class Check:
+    current = None      # the check object of this process (harness_guard consults it)
+
     def __init__(self, prop, level="model_checking", argv=None, description=""):
         ap = argparse.ArgumentParser(description=description or prop)
         ap.add_argument("--tier", default=os.environ.get("VERIF_TIER", "quick"), choices=["quick", "thorough"])
@@ -435,6 +437,7 @@ class Check:
         self.assumptions = []
         self.violations = 0
         self.known, self.fixed = load_known()
+        Check.current = self
         self.known_printed = set()
         self.viol_sigs = set()
         self.lock = threading.Lock()
@@ -541,9 +544,17 @@ class Check:
 
 
 def harness_guard(fn):
-    """Run a check's main; harness errors exit 3 (never a VIOLATION line)."""
+    """Run a check's main; harness errors exit 3 (never a VIOLATION line). Exception: when violations have already
+    been reported in this run, an internal inconsistency met afterwards (a driver that dies, an outcome that does not
+    reproduce, ...) is most likely one more symptom of the same broken tree: the run is closed as a capped run with the
+    violations found so far (exit 1) instead of hiding them behind exit 3."""
     try:
         fn()
     except HarnessError as e:
+        chk = Check.current
+        if chk is not None and chk.violations > 0:
+            print("NOTE: stopped early after %d violation(s): %s" % (chk.violations, str(e)[:600]))
+            chk.cap("stopped early: inconsistent harness state after violations were found (%s)" % str(e)[:200])
+            chk.finish()
         sys.stderr.write("HARNESS ERROR: %s\n" % e)
         sys.exit(3)
